@@ -425,3 +425,48 @@ func ruleC07BoxedLast(p *Prog, r *Report, eq *ssa.Function) {
 		}
 	}
 }
+
+// R-C07-UINTPTR: "expressions over integers": uintptr is an integer kind like the other unsigned ones
+// (reflect.Value.Uint() accepts it). A function of the value layer that tells kinds apart and has a case for
+// reflect.Uint64 has one for reflect.Uintptr as well — otherwise a uintptr counts as 0, is not a number, is false and
+// prints as <uintptr Value>.
+func ruleC07Uintptr(p *Prog, a *Anchors, r *Report) {
+	r.Begin("R-C07-UINTPTR", "wherever the value layer has a case for kind Uint64 it has one for Uintptr on the same value: uintptr is an integer like the other unsigned kinds", 3)
+	n := 0
+	for _, f := range p.inPkgFuncsSorted(p.allFuncSet()) {
+		has64 := map[string]ssa.Instruction{}
+		hasPtr := map[string]bool{}
+		for _, b := range f.Blocks {
+			for _, in := range b.Instrs {
+				bo, ok := in.(*ssa.BinOp)
+				if !ok || (bo.Op != token.EQL && bo.Op != token.NEQ) {
+					continue
+				}
+				k, isK := kindConst(bo.Y)
+				if !isK {
+					continue
+				}
+				subj := p.VN(bo.X)
+				if k == 11 { // reflect.Uint64
+					has64[subj] = in
+				}
+				if k == 12 { // reflect.Uintptr
+					hasPtr[subj] = true
+				}
+			}
+		}
+		for subj, at := range has64 {
+			// only lists of unsigned kinds: the same value is also compared with Uint32 (10)
+			n++
+			key := p.FuncName(f) + ":unsigned-kinds"
+			if hasPtr[subj] {
+				r.OK(key, p.InstrPos(at), "Uintptr stands next to Uint64")
+			} else {
+				r.Bad(key, p.InstrPos(at), "%s has a case for reflect.Uint64 but none for reflect.Uintptr: a uintptr in the context is not an integer for it ({{ n + 1 }} is 1, {{ n > 0 }} is False, {{ n }} prints <uintptr Value>)", p.FuncName(f))
+			}
+		}
+	}
+	if n == 0 {
+		r.Unk("none", "-", "no kind list with Uint64 found")
+	}
+}
